@@ -19,7 +19,8 @@ EXPLANATION = (
     "edge, mismatch clears the flag, errors return False; acquire returns True only after _try_acquire() returned True; the "
     "local flag is set only after flock succeeded; (R5) flock mode never unlinks the lock file; the S3 release deletes only "
     "under content == lock_id. The polling provider is documented best-effort and is not constrained."
-    " Also: taking over IS acquiring (the takeover's result is _try_acquire's result); the cached ETag only ever holds the ETag of our own PUT; is_held returns decided constants; LocalLockProvider never removes the lock file.")
+    " Also: taking over IS acquiring (the takeover's result is _try_acquire's result); the cached ETag only ever holds the ETag of our own PUT; is_held returns decided constants; LocalLockProvider never removes the lock file."
+    ' (R6) the existence-lock fallback is reached only when no kernel lock primitive is available; R2 covers counted `for` acquire loops too (a count of attempts is not a deadline).')
 NOT_DECIDED = "kernel / S3 semantics, interleavings, numeric timeout bounds"
 
 
